@@ -6,6 +6,7 @@ import (
 	"unicode/utf8"
 
 	"github.com/influxdata/influxql"
+	"verifharness/gen"
 	"verifharness/mon"
 )
 
@@ -441,7 +442,7 @@ func init() { Registry["C05"] = checkC05 }
 
 func checkC05(c *Ctx) (string, bool, []string) {
 	r := c.R
-	rule := "every ordered pair of lexeme spellings (all keywords, operators, punctuation, identifiers, strings, numbers, durations, parameters, comments, unterminated and bad-escape forms, illegal and multi-byte characters, regexes via ScanRegex) x 11 separators, at offset 0, mid-text and at EOF; random texts of 1-40 lexemes; multi-line statements with one unexpected token for ParseError.Pos. Non-trivial = text has >=2 lexemes; distinct by text."
+	rule := "every ordered pair of lexeme spellings (all keywords, operators, punctuation, identifiers, strings, numbers, durations, parameters, comments, unterminated and bad-escape forms, illegal and multi-byte characters, regexes via ScanRegex) x 11 separators, at offset 0, mid-text and at EOF; random texts of 1-40 lexemes; multi-line statements with one unexpected token, and generated statements of all kinds with one token replaced by an illegal character, for ParseError.Pos. Non-trivial = text has >=2 lexemes; distinct by text."
 	assume := []string{"NUL is outside the domain (rune 0 is the scanner's in-band EOF marker)", "extents come from the verif hook counter VerifConsumed(), not from reported positions"}
 	lex := c05Lexemes()
 	if c.Replay != nil {
@@ -459,6 +460,8 @@ func checkC05(c *Ctx) (string, bool, []string) {
 			c05Scan(c, string(b), ra, local)
 		case "errpos":
 			c05ErrPos(c, replayStr(c, "input"), replayInt(c, "offset"), local)
+		case "errgen":
+			c05ErrPosGen(c, replayInt(c, "idx"), local)
 		}
 		return rule, false, assume
 	}
@@ -517,6 +520,13 @@ func checkC05(c *Ctx) (string, bool, []string) {
 	})
 	// ParseError.Pos
 	c05ErrPosAll(c)
+	ngen := c.N(30000, 600000)
+	mon.Parallel(ngen, c.Workers, func(i int) {
+		local := map[string]int64{}
+		c05ErrPosGen(c, i, local)
+		r.MergeCounts(local)
+	})
+	r.Require(r.Counter("errgen.checked") > 0, "generated error positions never checked")
 	for _, k := range []string{"tok.IDENT", "tok.STRING", "tok.BADSTRING", "tok.BADESCAPE", "tok.NUMBER", "tok.INTEGER", "tok.DURATIONVAL", "tok.BOUNDPARAM", "tok.COMMENT", "tok.ILLEGAL", "tok.WS", "tok.keyword", "tok.REGEX", "tok.BADREGEX", "tok.via-ScanRegex", "errpos.checked"} {
 		r.Require(r.Counter(k) > 0, k+" never observed")
 	}
@@ -578,6 +588,51 @@ func c05ErrPos(c *Ctx, base string, off int, local map[string]int64) {
 		return
 	}
 	local["errpos.checked"]++
+}
+
+// c05ErrPosGen replaces one token of a generated statement by an illegal
+// token and requires the parse error to point at it.
+func c05ErrPosGen(c *Ctx, idx int, local map[string]int64) {
+	r := c.R
+	rg := mon.NewRng(c.Seed, "c05.errgen", idx)
+	gc := genCase(c.Seed, "c05.errgen.base", idx, -1, -1, gen.Opts{MaxDepth: 2, Hostile: idx%4 == 0}, "random")
+	toks := append([]gen.Tok(nil), gc.G.B.Toks...)
+	ti := rg.Intn(len(toks))
+	bad := rg.Pick("?", "#", "@", "~", "`")
+	toks[ti].Text = bad
+	if ti+1 < len(toks) && toks[ti+1].Gap == gen.GapNone {
+		// keep what follows from fusing with what precedes
+	}
+	text, gaps := gen.Render(toks, gen.Layout{Rg: rg})
+	off := gaps[ti].End
+	det := func(why string) map[string]interface{} {
+		return map[string]interface{}{"sub": "errgen", "idx": idx, "input": text, "offset": off, "why": why}
+	}
+	var err error
+	if p, pv, stk := mon.Try(func() { _, err = influxql.ParseQuery(text) }); p {
+		d := det(fmt.Sprint(pv))
+		d["stack"] = stk
+		r.Violation("panic-in-parse", d)
+		return
+	}
+	r.Eval(1)
+	r.DistinctStr("errgen|" + text)
+	if err == nil {
+		local["errgen.accepted(illegal char inside a quoted token?)"]++
+		return
+	}
+	pe, ok := err.(*influxql.ParseError)
+	if !ok || pe.Found != bad {
+		local["errgen.other-error-first"]++
+		return
+	}
+	f := foldText(text)
+	want := posAt(f, len(foldText(text[:off])))
+	if pe.Pos != want {
+		r.Violation("error-position", det(fmt.Sprintf("error %q reports %v, the offending token is at %v", err.Error(), pe.Pos, want)))
+		return
+	}
+	local["errgen.checked"]++
 }
 
 func c05ErrPosAll(c *Ctx) {
